@@ -124,6 +124,12 @@ def p_texts(trace, res):
             if st["o"] == "P" and st["op"] == "sqltext" and ob.get("ok")]
 
 
+def join_order_only(a: str, b: str) -> bool:
+    """two texts that differ only in the order of their JOIN clauses"""
+    pa, pb = a.split(" JOIN "), b.split(" JOIN ")
+    return a != b and pa[0] == pb[0] and sorted(pa[1:]) == sorted(pb[1:]) and len(pa) > 2
+
+
 def stale_cache_shape(trace):
     """H registered a view name with some columns before P registers the same name with other columns and reads it"""
     cols = {}
@@ -526,6 +532,15 @@ def _run(ctx: core.Ctx):
                 if u0 or u1:
                     n_text_uuid += 1
                 bad = (x0 != x1) or (p0 != p1) or (u0 != u1) or (not u0 and raw0 != raw1)
+                if bad and x0 == x1 and u0 == u1 and u0 and isinstance(p0, str) and isinstance(p1, str) \
+                        and join_order_only(p0, p1):
+                    ctx.deviation("C18/optimized-sql-text:join-order-depends-on-random-cte-names",
+                                  "df.sql() (optimize=True) of a program that joins a DataFrame with relatives of itself lists its "
+                                  "JOINs in a different order in two fresh processes (the unoptimised text is identical up to the "
+                                  "uuid literals)",
+                                  {"program": src_tr, "optimized_a": p0, "optimized_b": p1, "unoptimized_normalised": x0,
+                                   "uuid_literals": [u0, u1]})
+                    break
                 if bad or len(t0) != len(t1):
                     ctx.deviation("C18/sql-text-not-reproducible:" + ("with-uuid-literals" if u0 or u1 else "no-uuid-literals"),
                                   "df.sql() of the same program differs between two fresh processes",
@@ -533,6 +548,11 @@ def _run(ctx: core.Ctx):
                                    "uuid_literals": [u0, u1]})
                     break
     if tie_bad:
+        ctx.log("tie mismatches by step kind: " + json.dumps({k: sum(1 for t in tie_bad if t["step_json"]["op"] == k)
+                                                               for k in {t["step_json"]["op"] for t in tie_bad}}))
+        for t in tie_bad[:3]:
+            ctx.log("  impl : " + t["impl"][:400])
+            ctx.log("  model: " + t["model"][:400])
         ctx.broken("T3:impl-vs-model", f"{n_tie_bad} traces where a step's registries/frame structure differ between implementation "
                    f"and model; first: step {tie_bad[0]['step']} {json.dumps(tie_bad[0]['step_json'])}", data=tie_bad[:5])
 
